@@ -43,8 +43,8 @@ THEOREMS = [
 ]
 
 RULE = (" HINT HELPERS (bin c11h, mode hint-helpers): a second PRNG stream generates histories of public mutations (single-slot mutate_p "
-        "through a filled cursor, mutate_ps, mutate_ops without removal, set_cutoff growth, mutate_subsection under a Varlist cursor built by "
-        "fill_args_at_p_with_hint; nvars 1..6, cutoff <= 26 (thorough: a quarter of the histories up to 60), ops on 1..3 distinct variables) on a "
+        "through a filled cursor, mutate_ps, mutate_ops without removal, set_cutoff growth, mutate_subsection and mutate_subsection_ops (heap "
+        "branch) under a Varlist cursor built by fill_args_at_p_with_hint; nvars 1..6, cutoff <= 26 (thorough: a quarter of the histories up to 60), ops on 1..3 distinct variables) on a "
         "real FastOps; every third step the in/out bits of all ops are rewritten (same-variables fast path) into worldlines that pass "
         "verify(state). After every mutation six stateless lines are printed with the contents as get_pth sees them: 2x hintfill "
         "(get_empty_args(Varlist) + one or, 1 in 5, two fill_args_at_p_with_hint on the same args, p anywhere in 0..=cutoff, half of them on an "
